@@ -14,10 +14,11 @@ import (
 // c12shared: "make-instance fills each slot from the matching initarg" with initargs shared between slots
 // (the property's quantifier names them). The class's table from initarg to slot definition must be able to
 // hold more than one slot per initarg, and the code that applies an initarg must visit every entry.
-//   (a) the element type of StandardClass.initArgs is a slice (or map) of slot definitions;
-//   (b) every function of pkg/clos that obtains the slots of an initarg (a call whose callee returns a value
-//       looked up in the initArgs field) iterates over the result: the result is indexed by a non-constant
-//       index. A result only tested for nil/len or indexed by a constant applies the initarg to one slot.
+//
+//	(a) the element type of StandardClass.initArgs is a slice (or map) of slot definitions;
+//	(b) every function of pkg/clos that obtains the slots of an initarg (a call whose callee returns a value
+//	    looked up in the initArgs field) iterates over the result: the result is indexed by a non-constant
+//	    index. A result only tested for nil/len or indexed by a constant applies the initarg to one slot.
 func c12shared(c *core.Ctx, r *core.Reporter) {
 	const rule = "C12.shared"
 	r.Rule(rule, "the class's initarg table maps an initarg to every slot that names it (multi-valued element type), and each place that applies an initarg iterates over all of them", 3)
